@@ -157,6 +157,26 @@ class EArr:
         if isinstance(other, EArr):
             if not self.same_extent(other):
                 raise Unsupported('earr: operands cover different index ranges (broadcasting is not modelled)')
+            if len(self.pieces) > 1 and len(other.pieces) == 1:
+                # an array assembled from regions (op) one generic element: region by region
+                o = other.single
+                return EArr(self.rank, self.rows, self.cols, None, pieces=[(r, c, (f(o, e) if reflected else f(e, o))) for r, c, e in self.pieces])
+            if len(other.pieces) > 1 and len(self.pieces) == 1:
+                o = self.single
+                return EArr(self.rank, self.rows, self.cols, None, pieces=[(r, c, (f(e, o) if reflected else f(o, e))) for r, c, e in other.pieces])
+            if len(self.pieces) > 1 and len(other.pieces) > 1:
+                # both assembled from regions: the regions of either, each with the latest piece of both that covers it
+                regions = []
+                for r, c, _ in self.pieces + other.pieces:
+                    if not any(_same(r[0], r2[0]) and _same(r[1], r2[1]) and _same(c[0], c2[0]) and _same(c[1], c2[1]) for r2, c2 in regions):
+                        regions.append((r, c))
+                regions.sort(key=lambda rc: 0 if (_same(rc[0][0], self.rows[0]) and _same(rc[0][1], self.rows[1]) and _same(rc[1][0], self.cols[0])
+                                                  and _same(rc[1][1], self.cols[1])) else 1)
+                out = []
+                for r, c in regions:
+                    e1, e2 = self.lookup(r, c), other.lookup(r, c)
+                    out.append((r, c, (f(e2, e1) if reflected else f(e1, e2))))
+                return EArr(self.rank, self.rows, self.cols, None, pieces=out)
             a, b = self.single, other.single
         else:
             a, b = None, to_sym(other)
@@ -164,6 +184,20 @@ class EArr:
             return EArr(self.rank, self.rows, self.cols, None,
                         pieces=[(r, c, (f(b, e) if reflected else f(e, b))) for r, c, e in self.pieces])
         return self.like(f(b, a) if reflected else f(a, b))
+
+    def lookup(self, rows, cols):
+        """expression of the latest piece that covers the region (regions are nested or disjoint, else Unsupported)"""
+        for r, c, e in reversed(self.pieces):
+            inside = all(sp.simplify(x).is_nonnegative for x in (rows[0] - r[0], r[1] - rows[1], cols[0] - c[0], c[1] - cols[1]))
+            if inside:
+                return e
+            disjoint = any(sp.simplify(x).is_nonnegative for x in (r[0] - rows[1], rows[0] - r[1], c[0] - cols[1], cols[0] - c[1]))
+            within = all(sp.simplify(x).is_nonnegative for x in (r[0] - rows[0], rows[1] - r[1], c[0] - cols[0], cols[1] - c[1]))
+            if within:
+                continue            # a later, smaller piece: it is listed as a region of its own
+            if not disjoint:
+                raise Unsupported('earr: partly overlapping regions')
+        raise Unsupported('earr: region outside the array')
 
     def pv_iop(self, ip, op, other):
         r = self.pv_binop(ip, op, other)
@@ -288,9 +322,7 @@ def intercept(ip, dotted, args, kw):
         if len(ext) == 2:
             return EArr(2, ext[0], ext[1], fill)
         raise Unsupported('earr: rank %d' % len(ext))
-    if dotted == 'numpy.arange':
-        if len(args) != 1:
-            raise Unsupported('earr: arange with start/step')
+    if dotted == 'numpy.arange' and len(args) == 1:
         return EArr(1, (sp.Integer(0), to_sym(x)), None, I_)
     if dotted == 'numpy.meshgrid':
         if len(args) != 2 or not all(isinstance(a, EArr) and a.rank == 1 for a in args):
@@ -312,6 +344,22 @@ def intercept(ip, dotted, args, kw):
         return triu(ip, x, kw.get('k', args[1] if len(args) > 1 else 0))
     if dotted == 'numpy.diag':
         return diag(ip, x)
+    if dotted == 'numpy.nan_to_num':
+        return x                     # (the entries that are read are numbers: requires clause of the contract)
+    if dotted == 'numpy.sum' and isinstance(x, EArr):
+        tag = len(ip.ghost.setdefault('earr_sums', []))
+        ax = kw.get('axis', args[1] if len(args) > 1 else None)
+        ip.ghost['earr_sums'].append((x, ax))
+        return SymV(sp.Function('SUM' if ax is None else 'SUM_axis%s' % ax)(sp.Integer(tag)))
+    if dotted == 'numpy.cumsum' and isinstance(x, SymV):
+        return SymV(sp.Function('CUMSUM')(x.e))
+    if dotted == 'numpy.append' and len(args) == 2 and isinstance(args[1], SymV):
+        head = args[0]
+        if isinstance(head, (list, tuple)) and len(head) == 1:
+            return SymV(sp.Function('PREPEND')(to_sym(head[0]), args[1].e))
+        raise Unsupported('earr: numpy.append')
+    if dotted == 'numpy.arange':
+        return SymV(sp.Function('ARANGE')(*[to_sym(a) for a in args]))
     if dotted in ('numpy.real', 'numpy.imag'):
         return (x if isinstance(x, (SymV, EArr)) else SymV(to_sym(x))).pv_getattr(ip, dotted.split('.')[1])
     raise Unsupported('earr: library call %s on element-wise values' % dotted)
